@@ -81,7 +81,8 @@ def gen_base(rng, today_year):
             line += [T(rng.choice('+-')), T(str(rng.randint(1, 25))), T(rng.choice(['days', 'day', 'weeks', 'months', 'years']))]
         return [line]
     if k == 2:
-        return [[T(rng.choice(months), 'month'), T('%d,' % rng.randint(1, 28)), T(str(rng.choice([2019, 2020, 2021])))]]
+        # 'Month day, year': the comma is a token of its own - blanks may also be inserted in front of it
+        return [[T(rng.choice(months), 'month'), T(str(rng.randint(1, 28))), T(',', 'glued'), T(str(rng.choice([2019, 2020, 2021])))]]
     if k == 3:
         t = '%d:%02d' % (rng.randint(0, 23), rng.randint(0, 59))
         line = [T(t), T(rng.choice(zones), 'zone')]
@@ -157,7 +158,9 @@ def render(rng, lines, mode):
     for line in lines:
         s_ = ''
         for i, (w, cls) in enumerate(line):
-            if i:
+            if i and cls == 'glued':
+                s_ += ' ' * (rng.randint(0, 3) if mode in ('blanks', 'all') else 0)      # no blank in the base line, 0-3 in the widened one
+            elif i:
                 s_ += ' ' * (rng.randint(1, 6) if mode in ('blanks', 'all') else 1)
             if mode in ('case', 'all') and cls in RECASE:
                 w = recase_word(rng, w)
